@@ -2,8 +2,9 @@
 
 For each kernel below the interpreter derives exact integer forms of the outputs and the rule checks a polynomial identity
 against the specification, for all inputs the kernel's contract admits, in the three portable configurations (native
-128-bit integers, the 64x64->128 multiply emulated with 32-bit pieces, 32-bit limbs).  The x86-64 assembly of the pinned
-build is not analysable and is outside the rule.
+128-bit integers, the 64x64->128 multiply emulated with 32-bit pieces, 32-bit limbs).  The pinned build compiles the
+native-int128 field code analysed here but replaces the 4x64 scalar multiply / reduce by x86-64 assembly, which is not
+analysable and outside the rule.
 
   product      sum l[j] W^j = (sum a.d[i] W^i) (sum b.d[j] W^j)                      scalar_mul_512, scalar_sqr_512
   reduce512    at the call of scalar_reduce: sum r.d[k] W^k + 2^256 c = l (mod n), < 2n, and the overflow argument is
